@@ -29,6 +29,12 @@ import (
 type WCfg struct {
 	A int                 `dials:"a" dialsalias:"olda"`
 	S map[string]struct{} `dials:"s"`
+	// L mirrors S (unset / empty / as many elements as S has members): a slice of structs, which the transformer walks
+	L []WItem `dials:"l"`
+}
+
+type WItem struct {
+	N int `dials:"n"`
 }
 
 // Verify rejects the value 13 (Wrap.tla: Bad)
@@ -125,6 +131,13 @@ func wbuild(t reflect.Type, a int, s, via string) reflect.Value {
 		default:
 			panic("harness: unexpected kind for S: " + f.Kind().String())
 		}
+		lf := out.FieldByName("L")
+		n := len(setOf(s))
+		sl := reflect.MakeSlice(lf.Type(), n, n) // empty, not nil, when the set is empty
+		for i := 0; i < n; i++ {
+			sl.Index(i).FieldByName("N").SetInt(int64(i + 1))
+		}
+		lf.Set(sl)
 	}
 	return out
 }
@@ -202,7 +215,7 @@ func showW(c *WCfg) string {
 	if c.S == nil {
 		nilS = "(nil)"
 	}
-	return fmt.Sprintf("{A:%d S:%v%s}", c.A, keys, nilS)
+	return fmt.Sprintf("{A:%d S:%v%s L:%v(nil=%v)}", c.A, keys, nilS, c.L, c.L == nil)
 }
 
 func runWrapCase(c wcase) (mis []wmis) {
@@ -214,7 +227,7 @@ func runWrapCase(c wcase) (mis []wmis) {
 	}()
 	ctx, cancel := context.WithCancel(context.Background())
 	defer cancel()
-	def := func() *WCfg { return &WCfg{A: 7, S: map[string]struct{}{"d": {}}} }
+	def := func() *WCfg { return &WCfg{A: 7, S: map[string]struct{}{"d": {}}, L: []WItem{{N: 9}}} }
 	var errCount, refErrCount atomic.Int64
 	p := dials.Params[WCfg]{OnWatchedError: func(context.Context, error, *WCfg, *WCfg) { errCount.Add(1) }}
 	rp := dials.Params[WCfg]{OnWatchedError: func(context.Context, error, *WCfg, *WCfg) { refErrCount.Add(1) }}
